@@ -123,10 +123,13 @@ _add('pure', ['filetime::FileTime::now', 'filetime::FileTime::from_unix_time', '
               'filetime::FileTime::from_creation_time', 'filetime::FileTime::from_system_time'])
 
 # ---------------------------------------------------------------- tempfile
-_add('temp_create_named', ['tempfile::NamedTempFile::new_in', 'tempfile::Builder::tempfile_in',
+_add('temp_create_named', ['tempfile::NamedTempFile::new_in', 'tempfile::tempdir_in', 'tempfile::TempDir::new_in'], dir=0)
+_add('temp_create_named', ['tempfile::Builder::tempfile_in', 'tempfile::Builder::tempdir_in', 'tempfile::Builder::make_in',
                            'tempfile::NamedTempFile::with_prefix_in', 'tempfile::NamedTempFile::with_suffix_in',
-                           'tempfile::tempdir_in', 'tempfile::TempDir::new_in', 'tempfile::Builder::tempdir_in',
-                           'tempfile::TempDir::with_prefix_in'], dir=0)
+                           'tempfile::TempDir::with_prefix_in', 'tempfile::TempDir::with_suffix_in'], dir=1)
+_add('pure', ['tempfile::Builder::new', 'tempfile::Builder::prefix', 'tempfile::Builder::suffix', 'tempfile::Builder::rand_bytes',
+              'tempfile::Builder::append', 'tempfile::Builder::permissions', '<tempfile::Builder as std::default::Default>::default'])
+_add('temp_persist', ['tempfile::Builder::keep', 'tempfile::Builder::disable_cleanup'])
 _add('temp_create_named_default', ['tempfile::NamedTempFile::new', 'tempfile::Builder::tempfile', 'tempfile::tempdir',
                                    'tempfile::TempDir::new', 'tempfile::NamedTempFile::with_prefix'])
 _add('temp_create_anon', ['tempfile::tempfile_in', 'tempfile::spooled_tempfile_in'], dir=0)
